@@ -3,49 +3,7 @@ package main
 
 import (
 	"rscheck/driver"
-	"rscheck/rules/c01"
-	"rscheck/rules/c02"
-	"rscheck/rules/c03"
-	"rscheck/rules/c04"
-	"rscheck/rules/c05"
-	"rscheck/rules/c06"
-	"rscheck/rules/c07"
-	"rscheck/rules/c08"
-	"rscheck/rules/c09"
-	"rscheck/rules/c10"
-	"rscheck/rules/c11"
-	"rscheck/rules/c12"
-	"rscheck/rules/c13"
-	"rscheck/rules/c14"
-	"rscheck/rules/c15"
-	"rscheck/rules/c16"
-	"rscheck/rules/c17"
-	"rscheck/rules/c18"
-	"rscheck/rules/c19"
-	"rscheck/rules/c20"
+	"rscheck/rules/all"
 )
 
-func main() {
-	driver.Main([]driver.PropDef{
-		c08.Def,
-		c04.Def,
-		c03.Def,
-		c15.Def,
-		c13.Def,
-		c11.Def,
-		c20.Def,
-		c17.Def,
-		c16.Def,
-		c14.Def,
-		c07.Def,
-		c06.Def,
-		c01.Def,
-		c02.Def,
-		c05.Def,
-		c09.Def,
-		c10.Def,
-		c12.Def,
-		c18.Def,
-		c19.Def,
-	})
-}
+func main() { driver.Main(all.Defs()) }
